@@ -306,24 +306,30 @@ func c20Run(c *h.Ctx) {
 		return
 	}
 	pending := e.Setup
-	// in a third of the cases a second goroutine keeps publishing table-level events, so that two engine goroutines
+	// in two thirds of the cases two more goroutines keep publishing table-level events, so that two engine goroutines
 	// deliver snapshots to the same actors at the same time
 	noiseStop := make(chan struct{})
 	noiseDone := make(chan struct{})
-	if c.Case%3 == 1 {
+	if c.Case%3 != 0 {
 		c.Feature("concurrent-publications")
-		go func() {
-			defer close(noiseDone)
-			for {
-				select {
-				case <-noiseStop:
-					return
-				default:
+		var nwg sync.WaitGroup
+		for k := 0; k < 2; k++ {
+			nwg.Add(1)
+			go func(seed int64) {
+				defer nwg.Done()
+				nr := rand.New(rand.NewSource(seed))
+				for {
+					select {
+					case <-noiseStop:
+						return
+					default:
+					}
+					s.TE.PlayerExtendActionDeadline("", 0)
+					time.Sleep(time.Duration(20+nr.Intn(200)) * time.Microsecond)
 				}
-				s.TE.PlayerExtendActionDeadline("", 0)
-				time.Sleep(time.Duration(50+rand.Intn(300)) * time.Microsecond)
-			}
-		}()
+			}(r.Int63())
+		}
+		go func() { nwg.Wait(); close(noiseDone) }()
 	} else {
 		close(noiseDone)
 	}
